@@ -35,6 +35,8 @@ Section Num.
   Definition py_ofZ (z : Z) : F := nofZ O z.
   (* true division of two Python ints *)
   Definition py_truediv (a b : Z) : F := ndiv O (nofZ O a) (nofZ O b).
+  (* np.abs of a float *)
+  Definition py_abs (x : F) : F := if nleb O (n0 O) x then x else nsub O (n0 O) x.
 End Num.
 
 (* ---------------------------------------------------------------------------------------------- *)
